@@ -3,6 +3,7 @@ package object
 import (
 	"bytes"
 	"context"
+	"encoding/json"
 	"fmt"
 
 	"github.com/risor-io/risor/errz"
@@ -250,7 +251,7 @@ func (b *Buffer) Cost() int {
 }
 
 func (b *Buffer) MarshalJSON() ([]byte, error) {
-	return []byte(fmt.Sprintf("%q", b.value.String())), nil
+	return json.Marshal(b.value.String())
 }
 
 func NewBuffer(buf *bytes.Buffer) *Buffer {
